@@ -7,6 +7,7 @@ import (
 	"strings"
 	"testing"
 
+	"verif/internal/match"
 	"verif/internal/model"
 	"verif/internal/vk"
 
@@ -64,7 +65,7 @@ func run(r *vk.Run, prog []model.Node, compact bool, class string) *vk.Fail {
 	if res.Err != nil {
 		return fail("render failed: %v; reference output %q", res.Err, want.Out)
 	}
-	if res.Out != want.Out {
+	if !match.SameText(res.Out, want.Out) {
 		return fail("output %q, reference says %q", res.Out, want.Out)
 	}
 	return nil
